@@ -1,6 +1,7 @@
 package interp
 
 import (
+	"fmt"
 	"go/types"
 	"net/url"
 	"regexp"
@@ -193,5 +194,33 @@ func init() {
 		}
 		var cell value = c
 		return tuple{&cell, iface{}}
+	}
+}
+
+// uuid.NewUUID / uuid.New: an environment value that differs on every call (and
+// therefore between replicas): consensus results must not depend on it.
+func init() {
+	const u = "github.com/google/uuid"
+	fresh := func(fr *frame) array {
+		fr.i.x.stub("uuid.NewUUID / uuid.New (environment: a different value on every call)")
+		fr.i.x.uniq++
+		n := fr.i.x.uniq
+		out := make(array, 16)
+		for k := range out {
+			out[k] = uint8(0)
+		}
+		out[0], out[1], out[14], out[15] = uint8(0xee), uint8(0x1d), uint8(n>>8), uint8(n)
+		return out
+	}
+	externals[u+".NewUUID"] = func(fr *frame, args []value) value { return tuple{fresh(fr), iface{}} }
+	externals[u+".New"] = func(fr *frame, args []value) value { return fresh(fr) }
+	externals[u+".NewRandom"] = func(fr *frame, args []value) value { return tuple{fresh(fr), iface{}} }
+	externals["("+u+".UUID).String"] = func(fr *frame, args []value) value {
+		a := args[0].(array)
+		b := make([]byte, 16)
+		for k := range a {
+			b[k], _ = a[k].(uint8)
+		}
+		return fmt.Sprintf("%x-%x-%x-%x-%x", b[0:4], b[4:6], b[6:8], b[8:10], b[10:16])
 	}
 }
